@@ -79,6 +79,13 @@ function genProgram (rng, opts = {}) {
   // multi-line layout: some statements split
   let code = lines.join(nl) + nl
   if (rng.bool(0.5)) code = code.replace(/, /g, () => rng.bool(0.15) ? ',' + nl + '    ' : ', ')
+  // how the file ENDS: with a line break (usual), with nothing after the last token, or with a literal whose closing quote is
+  // the very last byte of the file; and how it BEGINS: a literal at offset 0
+  const ending = rng.int(6)
+  if (ending === 0) code = code.replace(/[\r\n]+$/, '')
+  else if (ending === 1 && !opts.module) code = code + 'module.exports = ' + lit()
+  else if (ending === 2 && !opts.module) code = code + `var lastOne = ${lit()}, veryLast = ${lit()}`
+  if (rng.bool(0.15) && !opts.module && !/^\s*['"]use/.test(code)) code = `${lit()}.length; ` + code
   if (opts.bom) code = '﻿' + code
   return { code, planted }
 }
